@@ -28,7 +28,7 @@ REAL = ['py4hw.logic.arithmetic_fp (FPAdder_SP, FPMult_SP, InttoFP_SP, FPtoInt_S
 STUB = ['stimulus']
 ASSUMPTIONS = ['domain: finite normal operands; adder/multiplier only where the exact result is normal (non-zero, exponent in range)',
                'ulp of a value v = 2**(floor(log2|v|) - 23)']
-PROBES = ['operands_from_constant_blocks', 'operands_from_helper_constants', 'outputs_read_at_time_zero', 'settled_by_clk0', 'block_added_after_simulation', 'add_gap_ge_24', 'add_gap_ge_32', 'add_cancellation', 'mul_exact_normal', 'cmp_equal', 'i2f_exact', 'i2f_lost', 'f2i_exact_odd',
+PROBES = ['operand_wires_with_one_name', 'operands_from_constant_blocks', 'operands_from_helper_constants', 'outputs_read_at_time_zero', 'settled_by_clk0', 'block_added_after_simulation', 'add_gap_ge_24', 'add_gap_ge_32', 'add_cancellation', 'mul_exact_normal', 'cmp_equal', 'i2f_exact', 'i2f_lost', 'f2i_exact_odd',
           'f2i_fraction', 'f2i_invalid', 'f2i_small']
 
 MANT = [0, 1, 0x400000, 0x7FFFFE, 0x7FFFFF]
@@ -109,7 +109,7 @@ def gen(rs, tier, index):
     fr = rs.get('faults')
     steps = [{'vec': v, 'faults': [f for f in ('resort', 'sim_restart', 'extra_settle') if fr.random() < 0.05]} for v in vecs]
     return {'blk': blk, 'steps': steps, 'perm': rs.sub('perm') if fr.random() < 0.7 else None, 'inregs': rng.random() < 0.5,
-            'settle': fr.choice(['clk1', 'clk1', 'clk0', 'prop']), 'late_dut': fr.random() < 0.2,
+            'settle': fr.choice(['clk1', 'clk1', 'clk0', 'prop']), 'late_dut': fr.random() < 0.2, 'samename': fr.random() < 0.12,
             # operand source: poked wires, Constant blocks that exist before the block under test (value re-assigned every
             # vector), or placeholders from LogicHelper.hw_constant that all start from the same value
             'src': fr.choice(['put', 'put', 'const', 'helper_const']),
@@ -157,6 +157,15 @@ def build(scn):
         py4hw.Buf(par, 'keep', t_, par.wire('kept'))
         with quiet():
             hw.getSimulator().clk(2)
+    if scn.get('samename') and nin == 2 and par is hw:
+        # the block sits in a user block that takes one operand through a port and makes the other one itself: a local
+        # wire that carries the very name of the wire behind the port (names are unique per owner only)
+        par = _Box(hw, 'scale')
+        par.addIn(feed[0].name, feed[0])
+        par.addIn('other', feed[1])
+        local = par.wire(feed[0].name, 32)
+        py4hw.Buf(par, 'copy', feed[1], local)
+        feed = [feed[0], local]
     with quiet():
         if blk == 'add':
             outs['r'] = hw.wire('r', 32)
@@ -315,6 +324,8 @@ def run(scn, log, st):
     if scn.get('late_dut'):
         st.fault('late_add')
         st.probe('block_added_after_simulation')
+    elif scn.get('samename') and len(ins) == 2:
+        st.probe('operand_wires_with_one_name')
 
     def apply(vec, settle=True):
         for i_, (w, v) in enumerate(zip(ins, vec)):
